@@ -83,6 +83,14 @@ CHECKS = {
         "quick": [{"test": "TestC11", "checks": 120, "shards": 8}],
         "thorough": [{"test": "TestC11", "checks": 2500, "shards": 16, "env": {"VERIF_TIER": "thorough"}}],
     },
+    "C16": {
+        "level": "exploration",
+        "needs_legacygen": True,
+        "rule": "a generated legacy history (1-7 versions of set/remove/save with legacy-side DeleteVersion of non-latest versions, so that orphan records and holes in the version range exist; legacy fast index on/off) is executed by the LEGACY library (iavl v0.20.0 + cometbft-db v0.7.0, co-process /verif/legacygen) which returns the raw database and the hashes / available versions it reported; the reference model must agree with that report (this anchors the model against a third implementation). The dump is loaded into a MemDB and opened with the current library: every legacy version the legacy library reports must be available with the model's contents and the legacy-reported hash, on all read paths; then 4-24 generated steps of new-format history (writes, commits with and without writes on a legacy root, DeleteVersionsTo below / at / above the boundary, LoadVersionForOverwriting and DeleteVersionsFrom to legacy versions, reopenings with re-drawn configuration) are checked against the model after every step and through a fresh handle. DeleteVersionsTo below the boundary is a no-op by design ('legacy versions are deleted at once'). TestC16Testdata: the two checked-in 0.13 databases load, every version iterates completely, a commit and a prune across the boundary keep the contents. non-trivial = the legacy side has >=1 deletion and the continuation crosses the boundary with a prune at/above it or a rollback into the legacy range",
+        "assumptions": _ASSUME + ["iavl v0.20.0 + cometbft-db v0.7.0 (module cache) as the legacy oracle", "commits into a hole of the legacy version range are not generated"],
+        "quick": [{"test": "TestC16", "checks": 250, "shards": 6}, {"test": "TestC16Testdata", "checks": 1, "shards": 1, "count_cases": False}],
+        "thorough": [{"test": "TestC16", "checks": 8000, "shards": 16}, {"test": "TestC16Testdata", "checks": 1, "shards": 1, "count_cases": False}],
+    },
     "C17": {
         "level": "fault_enumeration",
         "rule": "a generated prefix history (6-28 steps), then ONE public call with an error result: reads on a committed version {Get, Has, GetWithIndex, GetByIndex, Iterate, Iterator loop+Error+Close, GetProof (membership and non-membership), GetVersioned, GetImmutable+Hash, Export loop, LoadVersion, TraverseStateChanges, VersionExists/AvailableVersions/GetLatestVersion}, reads on the working tree {Get, Iterate, Iterator}, writes {Set+SaveVersion, Remove+SaveVersion, SaveVersion without changes, DeleteVersionsTo, LoadVersionForOverwriting, Import+Commit}, on a cold handle (cache 0/2/1000, fast index on/off). A fault-free run on a cloned image records the result R and the number n of storage calls; then EVERY position k in [1,n] is faulted once (Get, Has, Iterator/ReverseIterator creation, iterator step, batch Set/Delete/Write) on a fresh clone, plus 0-3 drawn multi-fault sets; TestC17BigImport fails each physical batch write of a >10000-node import (background flushes and the final write) in turn. Oracle: an error, or exactly R (fault on an irrelevant path); never another value, an absence, a shorter iteration/export, a panic or a process abort; a write call must not report success when a storage write failed; the store left behind by a failed single-batch write reopens with every listed version readable and unchanged. non-trivial = n >= 2 and at least one position turned the result into an error; exhaustive over positions within each case",
